@@ -313,6 +313,8 @@ const preludeSeq = `
 (declare-fun sq_insert (SeqU Int U) SeqU)
 (assert (forall ((s SeqU) (i Int) (x U)) (! (= (sq_len (sq_insert s i x)) (+ (sq_len s) 1)) :pattern ((sq_insert s i x)))))
 (assert (forall ((s SeqU) (i Int) (x U) (j Int)) (! (= (sq_at (sq_insert s i x) j) (ite (< j i) (sq_at s j) (ite (= j i) x (sq_at s (- j 1))))) :pattern ((sq_at (sq_insert s i x) j)))))
+(assert (forall ((s SeqU) (i Int) (x U)) (! (= (sq_at (sq_insert s i x) i) x) :pattern ((sq_insert s i x)))))
+(assert (forall ((s SeqU) (i Int) (x U)) (! (= (sq_at (sq_update s i x) i) x) :pattern ((sq_update s i x)))))
 (declare-fun sq_remove (SeqU Int) SeqU)
 (assert (forall ((s SeqU) (i Int)) (! (=> (and (<= 0 i) (< i (sq_len s))) (= (sq_len (sq_remove s i)) (- (sq_len s) 1))) :pattern ((sq_remove s i)))))
 (assert (forall ((s SeqU) (i Int) (j Int)) (! (= (sq_at (sq_remove s i) j) (ite (< j i) (sq_at s j) (sq_at s (+ j 1)))) :pattern ((sq_at (sq_remove s i) j)))))
@@ -333,12 +335,26 @@ const preludeSeq = `
 (assert (forall ((s SeqU) (t SeqU)) (! (=> (sq_eq s t) (= s t)) :pattern ((sq_eq s t)))))
 `
 
+// reverse-direction sequence axioms: used only inside lemma obligations (they can
+// cause matching loops in large contexts).
+const preludeSeqRev = `
+(assert (forall ((s SeqU) (i Int) (x U) (j Int)) (! (=> (and (<= 0 j) (< j (sq_len s))) (= (sq_at s j) (sq_at (sq_insert s i x) (ite (< j i) j (+ j 1))))) :pattern ((sq_insert s i x) (sq_at s j)))))
+(assert (forall ((s SeqU) (i Int) (j Int)) (! (=> (and (<= 0 j) (< j (sq_len s)) (not (= j i))) (= (sq_at s j) (sq_at (sq_remove s i) (ite (< j i) j (- j 1))))) :pattern ((sq_remove s i) (sq_at s j)))))
+(assert (forall ((s SeqU) (a Int) (b Int) (j Int)) (! (=> (and (<= a j) (< j b)) (= (sq_at s j) (sq_at (sq_slice s a b) (- j a)))) :pattern ((sq_slice s a b) (sq_at s j)))))
+(assert (forall ((s SeqU) (t SeqU) (j Int)) (! (=> (and (<= 0 j) (< j (sq_len s))) (= (sq_at s j) (sq_at (sq_concat s t) j))) :pattern ((sq_concat s t) (sq_at s j)))))
+(assert (forall ((s SeqU) (t SeqU) (j Int)) (! (=> (and (<= 0 j) (< j (sq_len t))) (= (sq_at t j) (sq_at (sq_concat s t) (+ j (sq_len s))))) :pattern ((sq_concat s t) (sq_at t j)))))
+`
+
 const preludeRank = `
 (assert (forall ((c U) (a U) (b U)) (! (and (<= 0 (rankf c a b)) (<= (rankf c a b) 2)) :pattern ((rankf c a b)))))
 `
 
 // preludeFor assembles the prelude sections a query needs.
 func preludeFor(body string, extra string) string {
+	return preludeForKind(body, extra, "")
+}
+
+func preludeForKind(body string, extra string, kind string) string {
 	var sb strings.Builder
 	sb.WriteString(preludeCore)
 	if strings.Contains(body, "str_lt") {
@@ -347,8 +363,11 @@ func preludeFor(body string, extra string) string {
 	if strings.Contains(body, "sq_") || strings.Contains(body, "SeqU") || strings.Contains(extra, "sq_") {
 		sb.WriteString(preludeSeq)
 	}
-	if strings.Contains(body, "rankf") {
+	if strings.Contains(body, "rankf") || strings.Contains(extra, "rankf") {
 		sb.WriteString(preludeRank)
+	}
+	if kind == "lemma" {
+		sb.WriteString(preludeSeqRev)
 	}
 	return sb.String()
 }
